@@ -1450,6 +1450,10 @@ inline validation_errc url::do_parse(const CharT* first, const CharT* last, cons
     if (res == validation_errc::ok) {
         set_flag(VALID_FLAG);
         parse_search_params();
+    } else {
+        // leave an empty url, not a half-built one: the getters of a url whose
+        // parse failed would read offsets that do not describe the string
+        reset_record();
     }
     return res;
 }
